@@ -184,8 +184,8 @@ def run_proof(pr, units, work):
         cmd3 += ['--cvc5']
     elif pr.backend in ('cadical', 'kissat'):
         cmd3 += ['--sat-solver', 'cadical'] if pr.backend == 'cadical' else ['--external-sat-solver', 'kissat']
-    if pr.kind == 'B':
-        cmd3 += ['--trace']
+    if pr.kind == 'B' and pr.backend == 'sat':
+        cmd3 += ['--trace']      # cadical + --trace ends in VERIFICATION ERROR in cbmc 6.11: bounded proofs on cadical give no input trace
     rc, out, secs = sh(cmd3, timeout=pr.timeout, mem_gb=pr.mem_gb)
     r.cmds.append(' '.join(cmd3))
     logs.append('$ ' + ' '.join(cmd3) + '\n' + out)
